@@ -34,11 +34,34 @@ def inlinable(facts, k, opaque, caller=None):
         # a public method is inlined only into a sibling method of the same impl type that merely delegates to it
         # (`without_x(self)` = `self.with_x("")`): small, loop-free callee
         cf = facts.fns.get(caller) if caller else None
-        if not (cf and f.get("impl_self") and f.get("impl_self") == cf.get("impl_self") and "impl_trait" not in f and "impl_trait" not in cf and len(b["blocks"]) <= 12 and not _has_loop(b)):
+        if not (cf and f.get("impl_self") and f.get("impl_self") == cf.get("impl_self") and "impl_trait" not in f and "impl_trait" not in cf and len(b["blocks"]) <= 12 and not _has_loop(b) and _pure_delegate(facts, caller, k)):
             return False
     if "impl_trait" in f or f.get("impl_trait_def"):
         return False
     return True
+
+
+def _pure_delegate(facts, caller, callee):
+    """the caller does nothing but call `callee` (apart from value conversions of the arguments / the result)"""
+    from .sem import is_conv
+    n = 0
+    for bl in facts.j["bodies"][caller]["blocks"]:
+        if bl["cleanup"]:
+            continue
+        t = bl["term"]
+        if t["t"] != "call":
+            continue
+        ce = t["callee"]
+        p = (ce.get("resolved") or {}).get("path") or ce.get("path")
+        if p == callee or ce.get("path") == callee:
+            n += 1
+            continue
+        if p is None:
+            return False
+        if is_conv(p) or is_conv(ce.get("path")) or p.endswith("Default>::default") or p == "std::default::Default::default":
+            continue
+        return False
+    return n == 1
 
 
 def _has_loop(j):
